@@ -6,7 +6,7 @@ a k-th distance tie accepted); the reference expectations come from a *fresh* co
 trained on exactly those rows.  Empty neighbourhoods must give all-NaN expectations and predict must stay
 inside the support of the configured empty-neighbourhood distribution.
 
-As built: Randomised learning policies (Thompson, Softmax, Popularity, Random, EpsilonGreedy(eps>0)) are checked too: the reference bandit is seeded with the row's own seed, reproduced from a clone of the bandit's generator (one int32 per row, drawn before partitioning). One 130-row batch in 1/12 of the cases. In a third of the histories the first batch arrives in a narrow dtype (uint8, int16, float32) and later batches bring coordinates outside its range. A quarter of the plain histories keep everything - batches and queries - in one narrow integer dtype.
+As built: Randomised learning policies (Thompson, Softmax, Popularity, Random, EpsilonGreedy(eps>0)) are checked too: the reference bandit is seeded with the row's own seed, reproduced from a clone of the bandit's generator (one int32 per row, drawn before partitioning). One 130-row batch in 1/12 of the cases. In a third of the histories the first batch arrives in a narrow dtype (uint8, int16, float32) and later batches bring coordinates outside its range. A quarter of the plain histories keep everything - batches and queries - in one narrow integer dtype. Round 8: a third of the histories with two or more batches remove / re-add / add arms between the batches (rows of a removed arm keep their place in the stored history).
 """
 from mon import env  # noqa: F401
 import math
